@@ -11,8 +11,8 @@ From Verif.Rewrite Require Import Files Tokens Names Effects.
    generator error, load/reload error, cannot generate), every file operation of the run is
    on derived.gen.go *)
 Theorem C10_touched_without_flags :
-  forall (wm : wmode) (fmt : list token -> bytes) (gen : list tmap -> bytes) (views : list pkg) (p : path),
-  In p (touched (fst (run wm fmt gen {| autoname := false; dedup := false |} views))) -> p = Derived.
+  forall (pg : bool) (wm : wmode) (fmt : list token -> bytes) (gen : list tmap -> bytes) (views : list pkg) (p : path),
+  In p (touched (fst (run pg wm fmt gen {| autoname := false; dedup := false |} views))) -> p = Derived.
 Proof. exact touched_without_flags. Qed.
 Print Assumptions C10_touched_without_flags.
 
@@ -31,8 +31,8 @@ Print Assumptions C10_rename_needs_flag.
 
 (* hence newPackage's panic("unreachable: function names cannot be changed ...") is unreachable *)
 Theorem C10_no_unreachable_panic :
-  forall (wm : wmode) (fmt : list token -> bytes) (gen : list tmap -> bytes) fl views,
-  snd (run wm fmt gen fl views) <> Crash.
+  forall (pg : bool) (wm : wmode) (fmt : list token -> bytes) (gen : list tmap -> bytes) fl views,
+  snd (run pg wm fmt gen fl views) <> Crash.
 Proof. exact no_unreachable_panic. Qed.
 Print Assumptions C10_no_unreachable_panic.
 
@@ -40,11 +40,11 @@ Print Assumptions C10_no_unreachable_panic.
    processed file in which the naming pass renamed a call, to the formatting of its renamed
    tokens; the substitution holds only calls of that file whose name did change *)
 Theorem C10_touched_with_flags :
-  forall (wm : wmode) (fmt : list token -> bytes) fl v,
-  (forall o, In o (fst (new_package wm fmt fl v)) <->
-     exists f sg, In (f, sg) (fst (names_pass fl v)) /\ sg <> [] /\
+  forall (pg : bool) (wm : wmode) (fmt : list token -> bytes) fl v,
+  (forall o, In o (fst (new_package pg wm fmt fl v)) <->
+     exists f sg, In (f, sg) (fst (names_pass pg fl v)) /\ sg <> [] /\
                   o = OWrite wm (f_path f) (fmt (rename sg (f_toks f)))) /\
-  (forall f sg, In (f, sg) (fst (names_pass fl v)) ->
+  (forall f sg, In (f, sg) (fst (names_pass pg fl v)) ->
      In f (p_files v) /\ Forall (renamed_entry fl (f_calls f)) sg).
 Proof. exact touched_with_flags. Qed.
 Print Assumptions C10_touched_with_flags.
@@ -52,18 +52,18 @@ Print Assumptions C10_touched_with_flags.
 (* the whole run, over every sequence of loader answers: each operation is on derived.gen.go
    or such a rewrite in one of the views; the rewrites of the first pass always happen *)
 Theorem C10_run_touched_with_flags :
-  forall (wm : wmode) (fmt : list token -> bytes) (gen : list tmap -> bytes) fl views,
-  (forall o, In o (fst (run wm fmt gen fl views)) -> allowed_op wm fmt fl views o) /\
+  forall (pg : bool) (wm : wmode) (fmt : list token -> bytes) (gen : list tmap -> bytes) fl views,
+  (forall o, In o (fst (run pg wm fmt gen fl views)) -> allowed_op pg wm fmt fl views o) /\
   (forall v rest f sg, views = v :: rest -> p_loads v = true ->
-     In (f, sg) (fst (names_pass fl v)) -> sg <> [] ->
-     In (OWrite wm (f_path f) (fmt (rename sg (f_toks f)))) (fst (run wm fmt gen fl views))).
+     In (f, sg) (fst (names_pass pg fl v)) -> sg <> [] ->
+     In (OWrite wm (f_path f) (fmt (rename sg (f_toks f)))) (fst (run pg wm fmt gen fl views))).
 Proof. exact run_touched_with_flags. Qed.
 Print Assumptions C10_run_touched_with_flags.
 
 (* a load error leaves the tree alone *)
 Theorem C10_load_error_touches_nothing :
-  forall (wm : wmode) (fmt : list token -> bytes) (gen : list tmap -> bytes) fl v rest,
-  p_loads v = false -> run wm fmt gen fl (v :: rest) = ([], LoadError).
+  forall (pg : bool) (wm : wmode) (fmt : list token -> bytes) (gen : list tmap -> bytes) fl v rest,
+  p_loads v = false -> run pg wm fmt gen fl (v :: rest) = ([], LoadError).
 Proof. exact load_error_touches_nothing. Qed.
 Print Assumptions C10_load_error_touches_nothing.
 
@@ -75,16 +75,32 @@ Print Assumptions C10_rewrite_exact.
 (* through the file system, one pass of the repaired code: renamed-in files hold exactly the
    formatting of their renamed tokens, everything else is unchanged *)
 Theorem C10_rewrite_exact_fs :
-  forall (fmt : list token -> bytes) (gen : list tmap -> bytes) fl v (s : fs),
+  forall (pg : bool) (fmt : list token -> bytes) (gen : list tmap -> bytes) fl v (s : fs),
   NoDup (map f_path (p_files v)) ->
-  let s' := apply_ops (fst (new_package Trunc fmt fl v)) s in
-  (forall f sg old, In (f, sg) (fst (names_pass fl v)) -> sg <> [] -> s (f_path f) = Some old ->
+  let s' := apply_ops (fst (new_package pg Trunc fmt fl v)) s in
+  (forall f sg old, In (f, sg) (fst (names_pass pg fl v)) -> sg <> [] -> s (f_path f) = Some old ->
                     s' (f_path f) = Some (fmt (rename sg (f_toks f)))) /\
-  (forall q, (forall f sg, In (f, sg) (fst (names_pass fl v)) -> sg <> [] -> f_path f <> q) ->
+  (forall q, (forall f sg, In (f, sg) (fst (names_pass pg fl v)) -> sg <> [] -> f_path f <> q) ->
              s' q = s q) /\
-  snd (run Trunc fmt gen fl [v]) <> Crash.
+  snd (run pg Trunc fmt gen fl [v]) <> Crash.
 Proof. exact rewrite_exact_fs. Qed.
 Print Assumptions C10_rewrite_exact_fs.
+
+(* the repaired code never writes a file whose source does not parse (the loader tolerates
+   syntax errors; formatting the error-recovered AST would lose user code) *)
+Theorem C10_unparsable_never_written :
+  forall (wm : wmode) (fmt : list token -> bytes) fl v o,
+  In o (fst (new_package true wm fmt fl v)) ->
+  exists f sg, In f (p_files v) /\ f_parses f = true /\
+               o = OWrite wm (f_path f) (fmt (rename sg (f_toks f))).
+Proof. exact unparsable_never_written. Qed.
+Print Assumptions C10_unparsable_never_written.
+
+(* before that repair: the unparsable file of ex_broken is rewritten *)
+Theorem C10_unparsable_rewritten_refuted :
+  touched (fst (run false Trunc toy_fmt toy_gen (fl_of true true) [ex_broken])) = [User 0; Derived].
+Proof. exact unparsable_rewritten_refuted. Qed.
+Print Assumptions C10_unparsable_rewritten_refuted.
 
 (* the pinned tree before b3117f9 (O_WRONLY without O_TRUNC): the old tail survives,
    exactly when the new text is strictly shorter *)
